@@ -189,6 +189,7 @@ def validate_traces(module, cfg, traces: list, *, shards=8, env=None, timeout=90
 
     def one(si):
         e = dict(env or {})
+        e.setdefault("VERIF_SRC", "gen")
         e["TRACE_FILE"] = str(files[si])
         return run(module, cfg, workers=1, env=e, timeout=timeout, tag=f"{tag}{si}", heap=heap, dfs=dfs)
 
